@@ -1,4 +1,5 @@
 #include <assert.h>
+#include <ctype.h>
 #include <limits.h>
 #include <stdint.h>
 #include <stdio.h>
@@ -682,9 +683,11 @@ callback_chunkedheader(void * cookie, int status)
 		 * Parse the chunk length; it's always in base 16, and allow
 		 * trailing characters to accommodate the EOL.  ${buf} is not
 		 * NUL-terminated but it does contain an EOL, so the cast is
-		 * safe.
+		 * safe provided that the line starts with a hex digit (so
+		 * that the EOL is not skipped as leading whitespace).
 		 */
-		if (PARSENUM_EX(&clen, (const char *)buf, 0, SIZE_MAX, 16, 1)) {
+		if ((!isxdigit(buf[0])) ||
+		    PARSENUM_EX(&clen, (const char *)buf, 0, SIZE_MAX, 16, 1)) {
 			/* Print ${buf} carefully (it's not NUL-terminated). */
 			if (eolpos <= INT_MAX)
 				warnp("parsenum failed on %.*s", (int)eolpos,
